@@ -1,6 +1,6 @@
 (* C20 -- proofs about Model/Spsc.v, part 2: from one producer to 1..n producer threads (push_lock) *)
 From Coq Require Import ZArith List Bool Lia Znumtheory.
-From RV Require Import Model.SpscSkel Model.Spsc Gen.SpscProg Proofs.SpscProofs.
+From RV Require Import Model.SpscSkel Model.Spsc Proofs.SpscProofs.
 Import ListNotations.
 Open Scope Z_scope.
 Open Scope bool_scope.
